@@ -3668,8 +3668,7 @@ static PyObject* gels(PyObject *self, PyObject *args, PyObject *kwrds)
     if (oA < 0) err_nn_int("offsetA");
     if (oA + (n-1)*ldA + m > len(A)) err_buf_len("A");
     if (oB < 0) err_nn_int("offsetB");
-    if (oB + (nrhs-1)*ldB + ((trans == 'N') ? n : m) > len(B))
-        err_buf_len("B");
+    if (oB + (nrhs-1)*ldB + MAX(m,n) > len(B)) err_buf_len("B");
 
     switch (MAT_ID(A)){
         case DOUBLE:
